@@ -600,3 +600,273 @@ def _parent_of_repeated(root, rep):
             if v is rep:
                 return n, name
     return None, None
+
+
+# ---- the tree walk of auto_claim_comments (Lean: Model/AutoClaim.lean, driver `M walk`) ------------------------------
+
+_WC_CACHE: dict = {}
+
+
+def _with_comments_fields(cls):
+    """Names of the repeated fields of `cls` that are exposed through a `raw_x_with_comments` property (their
+    `auto_claim_comments` ends with `claim_interleaving_comments()`)."""
+    r = _WC_CACHE.get(cls)
+    if r is None:
+        r = {f for _, (f, wc) in intro.api_props(cls)['rep'].items() if wc}
+        _WC_CACHE[cls] = r
+    return r
+
+
+def _relevant(m):
+    """Does attribution do anything below this model?"""
+    if isinstance(m, base.RawTokenModel) or not hasattr(m, '__dict__'):
+        return False
+    if isinstance(m, _sc.SurroundingCommentsMixin):
+        return True
+    if isinstance(m, internal.Repeated):
+        return any(isinstance(x, models.BlockComment) or _relevant(x) for x in m.items)
+    if isinstance(m, (intro.NumberAddExpr, intro.NumberMulExpr)):
+        return False
+    wc = _with_comments_fields(type(m))
+    for name, kind, v in intro.field_values(m):
+        if v is None:
+            continue
+        if kind == 'rep' and name in wc:
+            return True
+        if _relevant(v):
+            return True
+    return False
+
+
+class WalkDump:
+    """s-expression of the comment-relevant tree (protocol of Driver/CommentsD.lean) + the nodes in the driver's order."""
+
+    def __init__(self, root, ids):
+        self.ids = ids
+        self.surrounds = []      # block-commentable models, pre-order
+        self.reps = []           # Repeated nodes, in the order of `repsOf`
+        self.prefilled = False   # some slot / comment entry is filled before the walk
+        self.sx = self._node(root)
+
+    def _entries(self, v):
+        ids = self.ids
+        ents = []
+        for x in v.items:
+            if isinstance(x, models.BlockComment):
+                self.prefilled = True
+                ents.append(f'c{ids(x)}')
+            elif _relevant(x):
+                ents.append(self._node(x))
+            else:
+                ents.append(f'(B,0,(P,{ids(x.first_token)},{ids(x.last_token)}))')
+        return ents
+
+    def _node(self, m):
+        ids = self.ids
+        if isinstance(m, internal.Repeated):
+            # a bare `Repeated` as the root: `Repeated.auto_claim_comments` = its entries last to first, nothing else
+            self.reps.append(m)
+            return ','.join([f'(B,0,(R,{ids(m)},{ids(m.placeholder)},0'] + self._entries(m)) + '))'
+        if isinstance(m, _sc.SurroundingCommentsMixin):
+            self.surrounds.append(m)
+            le, tr = m.__dict__.get('_leading_comment'), m.__dict__.get('_trailing_comment')
+            if le is not None or tr is not None:
+                self.prefilled = True
+            head = f'(S,{ids(m)},{ids(le) if le is not None else "-"},{ids(tr) if tr is not None else "-"}'
+            skip = ('_leading_comment', '_trailing_comment')
+        else:
+            head = f'(B,{1 if isinstance(m, models.File) else 0}'
+            skip = ()
+        wc = _with_comments_fields(type(m))
+        parts = [head]
+        for name, kind, v in intro.field_values(m):
+            if name in skip:
+                continue
+            if v is None:
+                parts.append('(P)')
+            elif isinstance(v, internal.Repeated):
+                self.reps.append(v)
+                parts.append(','.join([f'(R,{ids(v)},{ids(v.placeholder)},{1 if name in wc else 0}'] + self._entries(v)) + ')')
+            elif _relevant(v):
+                parts.append(f'(C,{self._node(v)})')
+            else:
+                parts.append(f'(P,{ids(v.first_token)},{ids(v.last_token)})')
+        return ','.join(parts) + ')'
+
+    def post(self, store, calls):
+        """The expected driver output (up to `calls=`) from the real objects after the real walk."""
+        ids = self.ids
+        le = sorted((ids(m), ids(m.__dict__['_leading_comment'])) for m in self.surrounds if m.__dict__.get('_leading_comment') is not None)
+        tr = sorted((ids(m), ids(m.__dict__['_trailing_comment'])) for m in self.surrounds if m.__dict__.get('_trailing_comment') is not None)
+        enc = lambda l: ';'.join(f'{a}:{b}' for a, b in l) if l else '-'
+        reps = ';'.join(f'{ids(r)}:' + '.'.join(f'c{ids(x)}' if isinstance(x, models.BlockComment) else 'n' for x in r.items) for r in self.reps)
+        fl = ';'.join(f'{ids(m)}:{ids(m.first_token)}:{ids(m.last_token)}' for m in self.surrounds)
+        return (f'ok {enc_post(list(store), ids)} L={enc(le)} T={enc(tr)} R={reps or "-"} F={fl or "-"} '
+                f'calls={",".join(calls) if calls else "-"}')
+
+
+def _py_file_layout(claimer):
+    """The hypothesis of `walk_all_claimed_partial` on the REAL state right before the final claim of a File: the
+    placeholder is the first token of the store, the entries are laid out in order, every block comment inside an
+    entry's span is claimed, behind the last entry there is nothing that stops `_find_outer`."""
+    rep = claimer._repeated
+    toks = list(rep.token_store)
+    if not toks or toks[0] is not rep.placeholder:
+        return False
+    pos = {id(t): i for i, t in enumerate(toks)}
+    cur = 1
+    for it in rep.items:
+        f, l = pos.get(id(it.first_token)), pos.get(id(it.last_token))
+        if f is None or l is None or f < cur or l < f:
+            return False
+        if any(isinstance(t, models.BlockComment) and not t.claimed for t in toks[f:l + 1]):
+            return False
+        cur = l + 1
+    for t in toks[cur:]:
+        if isinstance(t, models.BlockComment):
+            if t.claimed or not t.raw_text:
+                return False
+        elif not (isinstance(t, (models.Newline, models.Whitespace)) or not t.raw_text):
+            return False
+    return True
+
+
+class CallTrace:
+    """While active, records the attribution primitives in the order they are called (composes with `Tracer`):
+    `L<start>` / `T<start>` = `_claim_comment` backwards / forwards from <start>, `I<ph>:<first>:<last>` =
+    `_CommentClaimer.claim` of the field with placeholder <ph> inside `model.first_token..model.last_token`."""
+
+    def __init__(self, ids, root=None):
+        self.ids = ids
+        self.root = root
+        self.calls = []
+        self.file_layout = None
+        self.other = 0
+
+    def __enter__(self):
+        tr = self
+        self._saved = (_sc._claim_comment, _ic._CommentClaimer.claim)
+        o1, o2 = self._saved
+
+        def _claim_comment(current, token_store, start, *, backwards, ignore_if_already_claimed):
+            tr.calls.append(('L' if backwards else 'T') + str(tr.ids(start)))
+            if not ignore_if_already_claimed:
+                tr.other += 1
+            return o1(current, token_store, start, backwards=backwards, ignore_if_already_claimed=ignore_if_already_claimed)
+
+        def claim(self_):
+            rep, model = self_._repeated, self_._model
+            tr.calls.append(f'I{tr.ids(rep.first_token)}:{tr.ids(model.first_token)}:{tr.ids(model.last_token)}')
+            if not isinstance(self_._comments_to_claim, _ic._Universe):
+                tr.other += 1
+            if model is tr.root:
+                tr.file_layout = _py_file_layout(self_)
+            return o2(self_)
+        _sc._claim_comment = _claim_comment
+        _ic._CommentClaimer.claim = claim
+        return self
+
+    def __exit__(self, *a):
+        _sc._claim_comment, _ic._CommentClaimer.claim = self._saved
+        return False
+
+
+class WalkRecorder:
+    """Lock-step of `root.auto_claim_comments()` with `autoClaimWalk` of the Lean model: pre-state (store + tree) ->
+    protocol line; the real walk; post-state + call order -> expected output; one batched driver run; diff."""
+
+    def __init__(self, limit=20000, max_tokens=1500):
+        self.lines = []     # (line, expected, py hypothesis, replay)
+        self.limit = limit
+        self.max_tokens = max_tokens
+        self.skipped = 0
+        self.moved = 0        # walks that changed the store order (a placeholder moved)
+        self.prefilled = 0    # walks that started with some slot / comment entry already filled
+
+    def run(self, root, replay):
+        """Performs `root.auto_claim_comments()` (traced if within budget)."""
+        store = root.token_store
+        n = len(store)
+        if len(self.lines) >= self.limit or n > self.max_tokens:
+            self.skipped += 1
+            root.auto_claim_comments()
+            return
+        ids = Ids()
+        toks = list(store)
+        pre = enc_store(toks, ids)
+        dump = WalkDump(root, ids)
+        trace = CallTrace(ids, root if isinstance(root, models.File) else None)
+        with trace:
+            root.auto_claim_comments()
+        exp = dump.post(store, trace.calls)
+        if trace.other:
+            exp += ' UNEXPECTED-ARGUMENTS'      # a claim without ignore_if_already_claimed / with a comment set
+        self.moved += [id(t) for t in store] != [id(t) for t in toks]
+        self.prefilled += dump.prefilled
+        self.lines.append((f'M walk {pre} {dump.sx}', exp, trace.file_layout, replay))
+
+    def diff(self, ctx, stream='auto-claim-walk'):
+        if not self.lines:
+            return 0
+        if not ctx.extra.get('model_available', True):
+            ctx.notes.append(f'{stream}: Lean model unavailable, correspondence skipped')
+            return 0
+        outs = ctx.driver.run([l for l, _, _, _ in self.lines])
+        bad = 0
+        for (line, exp, pyhyp, replay), got in zip(self.lines, outs):
+            head, _, tail = got.partition(' again=')
+            again, _, hyp = tail.partition(' hyp=')
+            ctx.count('walk:docs')
+            calls = exp.rsplit(' calls=', 1)[-1].split(' ')[0]
+            ctx.count('walk:calls', 0 if calls == '-' else calls.count(',') + 1)
+            if head != exp:
+                bad += 1
+                ctx.count('walk:mismatch')
+                ctx.divergence(stream, {'line': line[:2500], 'real': exp[:2000], 'model': got[:2000], 'where': _first_diff(exp, head)},
+                               dict(replay, stream=stream, line=line, expected=exp))
+                continue
+            ctx.count(f'walk:root:{"File" if pyhyp is not None else "inner"}:second-walk:{again.split(":")[0]}')
+            if again != 'same' and (pyhyp is not None or again != 'diff'):
+                # File root: a second walk must change nothing (walk_idempotent_partial, hypothesis h2 included);
+                # inner root: it must at least not be refused by the model
+                bad += 1
+                ctx.divergence(stream, {'line': line[:2500], 'second-walk-on-the-model': again}, dict(replay, stream=stream, line=line, expected='again=same'))
+            if pyhyp is not None:
+                # hypothesis of walk_all_claimed_partial: the model evaluates `fileLayoutOk`, the harness the same predicate
+                # on the real state right before the final claim
+                ctx.count(f'walk:file-layout-hypothesis:{"holds" if pyhyp else "fails"}')
+                if hyp != ('1' if pyhyp else '0'):
+                    bad += 1
+                    ctx.divergence(stream, {'line': line[:2500], 'hypothesis-real': pyhyp, 'hypothesis-model': hyp}, dict(replay, stream=stream, line=line, expected=f'hyp={int(pyhyp)}'))
+                all_claimed = all(c == '1' for c in _comment_flags(line, head))
+                ctx.count(f'walk:all-claimed:{"yes" if all_claimed else "no"}')
+                if pyhyp and not all_claimed:
+                    bad += 1
+                    ctx.divergence(stream, {'line': line[:2500], 'theorem': 'walk_all_claimed_partial: hypothesis holds but a comment is unclaimed'}, dict(replay, stream=stream, line=line, expected=exp))
+        if self.skipped:
+            ctx.count('walk:skipped', self.skipped)
+        ctx.count('walk:store-order-changed', self.moved)
+        ctx.count('walk:started-with-filled-slots', self.prefilled)
+        return bad
+
+
+def _first_diff(a, b):
+    fa, fb = a.split(' '), b.split(' ')
+    for x, y in zip(fa, fb):
+        if x != y:
+            return {'real': x[:300], 'model': y[:300]}
+    return {'real-fields': len(fa), 'model-fields': len(fb)}
+
+
+def _comment_flags(line, head):
+    """claimed flags (after the walk) of the block comments of the dumped store."""
+    pre = line.split(' ')[2]
+    kinds = {}
+    if pre != '-':
+        for t in pre.split(','):
+            i, k, _, _ = t.split(':')
+            kinds[i] = k
+    post = head.split(' ')[1]
+    if post == '-':
+        return []
+    return [t.split(':')[1] for t in post.split(',') if kinds.get(t.split(':')[0]) == 'c']
